@@ -9,4 +9,5 @@ pub mod codecs;
 pub mod gen;
 pub mod kmers;
 pub mod oracle;
+pub mod progs;
 pub mod props;
